@@ -5,6 +5,7 @@ import MosnVerif.Model.H2GoAway
 import MosnVerif.Model.TransferLookup
 import MosnVerif.Drive.C11Upgrade
 import MosnVerif.Drive.C11Drain
+import MosnVerif.Drive.C11Stream
 /-! `mosnmodel` driver for C11: evaluates the models on one case line and the property predicate (`Spec…`, written
 against literal reference values, never against regenerated code) on the implementation's output. -/
 namespace MosnVerif.Drive.C11
@@ -609,6 +610,7 @@ def run (caseToks impl : List String) : String :=
   | "gs2" :: c => gs2 c impl
   | "st" :: c => C11U.st c impl
   | "hw" :: c => C11U.hw c impl
+  | "hwl" :: c => C11S.hwl c impl
   | "rh" :: c => C11U.rh c impl
   | _ => "E E unknown-kind"
 
